@@ -171,10 +171,13 @@ func served(res *workload.Result, into map[rkey]bool) {
 func checkDegraded(o *workload.Op, res *workload.Result, t *truth, P map[rkey]bool, inMem map[int]bool, copies map[rkey]int) (string, string) {
 	oc := opClass(o)
 	must := func(k rkey) bool { return inMem[k.id] || (P[k] && copies[k] == 1) }
+	// "continues to be served" is about presence: how OFTEN a rule appears in
+	// an answer (an index listed twice in a bucket) is not promised, and a
+	// correct memo of a degraded answer may legitimately repeat it
 	lower := func(name string, want, got bag) string {
-		for k, n := range want {
-			if must(k) && got[k] < n {
-				return fmt.Sprintf("%s: %s was already materialised (served by an earlier completed query, or lives in an in-memory list) and is in the fault-free answer %d time(s), but is now returned %d time(s)", name, k, n, got[k])
+		for k := range want {
+			if must(k) && got[k] == 0 {
+				return fmt.Sprintf("%s: %s was already materialised (served by an earlier completed query, or lives in an in-memory list) and is in the fault-free answer, but is no longer returned", name, k)
 			}
 		}
 		return ""
